@@ -12,6 +12,7 @@ C10.d PrunePlan::new drops from the marked list every pack that is also listed u
 C10.g safe defaults: PruneOptions::default() has instant_delete = false, early_delete_index = false and a keep-delete span
   of at least an hour.
 C10.f deletion marks are persisted: Indexer::save writes the file unless both pack lists are empty.
+C10.h used-blob bookkeeping of prune (= C02.f): a used blob whose other copy sits in a pack that stays marked is still repacked.
 C10.e new index before old index removal; index removal before pack removal (R-ORDER 13/14).
 """
 import re
